@@ -1,6 +1,7 @@
 package main
 
 import (
+	"fmt"
 	"go/types"
 
 	"golang.org/x/tools/go/ssa"
@@ -39,6 +40,32 @@ func jsonUnmarshal(x *Exec, fr *Frame, st *State, site ssa.Instruction, c *ssa.C
 	return x.freshResult(fr, st, "Unmarshal!r", rt)
 }
 
+// errors.Join(errs...): nil exactly when every element is nil (or there is none);
+// otherwise a fresh non-nil error. Touches nothing.
+func errorsJoin(x *Exec, fr *Frame, st *State, site ssa.Instruction, c *ssa.CallCommon, args []Val, rt types.Type) Val {
+	x.assumed["errors.Join returns nil exactly when all its arguments are nil, and is pure w.r.t. the modelled heaps"] = true
+	r := x.freshResult(fr, st, "join", rt)
+	if len(args) != 1 || args[0].T.Sort != "Slice" {
+		return r
+	}
+	sl, ok := args[0].Typ.Underlying().(*types.Slice)
+	if !ok {
+		return r
+	}
+	hn, hs := x.S.ElemHeapT(sl.Elem())
+	h := x.heapGet(st, hn, hs)
+	ref, off, ln, _ := x.sliceParts(args[0].T)
+	inner := Term{app("select", h, ref), arraySort(x.S.Idx(), "Iface")}
+	k := Term{"k!join", x.S.Idx()}
+	elemNil := mkEq(Term{app("i_typ", mkSelect(inner, x.iAdd(off, k), "Iface")), "Int"}, intLit(0))
+	inRange := mkAnd(x.iLe(x.S.IdxLit(0), k), x.iLt(k, ln))
+	allNil := Term{fmt.Sprintf("(forall ((k!join %s)) (=> %s %s))", x.S.Idx(), inRange.S, elemNil.S), "Bool"}
+	resNil := mkEq(Term{app("i_typ", r.T), "Int"}, intLit(0))
+	x.assumeUnder(st.Guard, mkEq(resNil, allNil))
+	return r
+}
+
 func init() {
 	libCalls["encoding/json.Unmarshal"] = jsonUnmarshal
+	libCalls["errors.Join"] = errorsJoin
 }
